@@ -11,7 +11,7 @@ open S3V S3V.SigV4
 
 /-- the verdict logic, exactly (no well-formedness hypothesis): `v4_check_presigned_url` accepts, and attributes the
     request to the access key / region / service of `X-Amz-Credential`, iff the six parameters parse, the algorithm
-    is AWS4-HMAC-SHA256, `x-amz-content-sha256` (if present) is admissible, the date is a calendar instant, the key
+    is AWS4-HMAC-SHA256, the credential scope names the day of `X-Amz-Date`, `x-amz-content-sha256` (if present) is admissible, the date is a calendar instant, the key
     is known, `now` lies in `[date − 900 s, date + expires]`, and the recomputed signature is the presented one -/
 theorem C06_accept_conditions (sha256hex : Bytes → Bytes) (hmac : Bytes → Bytes → Bytes)
     (look : Bytes → Option Bytes) (nowNs : Int) (c : Ctx) (ak region service : Bytes) :
@@ -30,9 +30,10 @@ theorem C06_window_exact (nowNs date : Int) (expires : Nat) :
   window_iff nowNs date expires
 
 /-- FULL statement: accepted iff the signature is the specified one over method, path, all other query parameters
-    and the signed headers, under the credential's scope, and `now` is inside the window. False on the unchanged
-    tree for the canonicalisation classes shared with C05 (`Findings.C05`) and when the scope date of
-    `X-Amz-Credential` is not the day of `X-Amz-Date` (the code derives scope and key from `X-Amz-Date`). -/
+    and the signed headers, under the credential's scope, and `now` is inside the window. False (`Findings.C05`)
+    through the open classes `sigv4-dup-query-unsorted` and `sigv4-absent-signed-header` (the presigned path does not
+    refuse a name listed in `X-Amz-SignedHeaders` that no header line carries), and for lists outside the
+    specification's domain (unsorted or repeating a name). -/
 def C06_presigned_iff_full : Prop :=
   ∀ (sha256hex : Bytes → Bytes) (hmac : Bytes → Bytes → Bytes) (look : Bytes → Option Bytes) (nowNs : Int) (c : Ctx)
     (raw : List (Bytes × Bytes)) (ak region service : Bytes), orderedHeaders raw = some c.hs →
@@ -44,38 +45,21 @@ def C06_presigned_iff_full : Prop :=
           ⟨p.credential.date, region, service⟩
           (SigV4Spec.presignedRequest c.method c.path c.qs (effectiveRaw c.http2 c.authority raw) p.signedHeaders))
 
-/-- WF of a presigned context: `wfPresignedCtx` (signed headers present once without inner space runs, duplicate
-    parameter names with ascending values, `X-Amz-SignedHeaders` sorted) and the credential scope names the day of
-    `X-Amz-Date` -/
-def wfPresignedScope (c : Ctx) (raw : List (Bytes × Bytes)) : Bool :=
-  wfPresignedCtx c raw &&
-  match parsePresigned c.qs with
-  | none => true
-  | some p => p.credential.date = p.amzDate.fmtDate
-
-/-- for every context outside the finding classes, all times `now`, arbitrary hash and MAC -/
+/-- for every context satisfying `wfPresignedCtx` (the names of `X-Amz-SignedHeaders` sorted, distinct, not
+    `authorization`, each carried by a header line; duplicate parameter names with ascending values), all times `now`,
+    arbitrary hash and MAC. `PresignedChecks` contains the code's own check that the credential scope names the day of
+    `X-Amz-Date` (4011296). -/
 theorem C06_presigned_iff_partial (sha256hex : Bytes → Bytes) (hmac : Bytes → Bytes → Bytes)
     (look : Bytes → Option Bytes) (nowNs : Int) (c : Ctx) (raw : List (Bytes × Bytes)) (ak region service : Bytes)
-    (hraw : orderedHeaders raw = some c.hs) (hwf : wfPresignedScope c raw = true) :
+    (hraw : orderedHeaders raw = some c.hs) (hwf : wfPresignedCtx c raw = true) :
     v4CheckPresignedUrl sha256hex hmac (some look) nowNs c = .accept ak region service ↔
       ∃ p secret date, PresignedChecks look c p secret date ∧
         p.credential.accessKey = ak ∧ p.credential.region = region ∧ p.credential.service = service ∧
         SigV4Spec.inWindow nowNs date p.expires ∧
         p.signature = SigV4Spec.signature sha256hex hmac secret p.amzDate.fmtIso8601
           ⟨p.credential.date, region, service⟩
-          (SigV4Spec.presignedRequest c.method c.path c.qs (effectiveRaw c.http2 c.authority raw) p.signedHeaders) := by
-  simp only [wfPresignedScope, Bool.and_eq_true] at hwf
-  obtain ⟨hwf1, hwf2⟩ := hwf
-  rw [presigned_verdict_iff_spec sha256hex hmac look nowNs c raw ak region service hraw hwf1]
-  constructor
-  · rintro ⟨p, secret, date, hc, h1, h2, h3, hw, hs⟩
-    rw [hc.parsed] at hwf2
-    have hd : p.credential.date = p.amzDate.fmtDate := by simpa using hwf2
-    exact ⟨p, secret, date, hc, h1, h2, h3, hw, by rw [hd]; exact hs⟩
-  · rintro ⟨p, secret, date, hc, h1, h2, h3, hw, hs⟩
-    rw [hc.parsed] at hwf2
-    have hd : p.credential.date = p.amzDate.fmtDate := by simpa using hwf2
-    exact ⟨p, secret, date, hc, h1, h2, h3, hw, by rw [← hd]; exact hs⟩
+          (SigV4Spec.presignedRequest c.method c.path c.qs (effectiveRaw c.http2 c.authority raw) p.signedHeaders) :=
+  presigned_verdict_iff_spec sha256hex hmac look nowNs c raw ak region service hraw hwf
 
 /-- every query parameter other than `X-Amz-Signature` — expiry, date, credential, signed-header list included — is
     part of the signed view (in its encoded form) -/
